@@ -22,7 +22,7 @@ impl C06 {
     }
 }
 
-pub const FAMILIES: &[(&str, u64)] = &[("conf", 4), ("conf-hints", 2), ("medium", 3), ("medium-hints", 2), ("deep", 3), ("big", 3), ("tiny", 1), ("hostile", 2), ("wide", 4)];
+pub const FAMILIES: &[(&str, u64)] = &[("conf", 4), ("conf-hints", 2), ("medium", 3), ("medium-hints", 2), ("deep", 3), ("big", 3), ("tiny", 1), ("hostile", 2), ("wide", 4), ("many", 2), ("many-hints", 1)];
 
 /// Many candidates per package and many packages per conflict: large merge groups in the
 /// simplified graph, many entries in the hash sets that must be lookup-only.
